@@ -39,6 +39,7 @@ import Frp.Props.C16
       logs in again with its run id: `done` — `LockBal.run` with lock-balanced functions (regenerated `Gen.LockBalance`);
     * `sstorm`: the same from several clients at once, scripts drawn in the child: with the wrapping arithmetic the
       panic is an allowed outcome.
+    * a result `slow:<answer>` (no answer within 90 s, the answer within the next 90 s, watchdog ok afterwards) is skipped.
   The property predicate `C16.holdsOn` is evaluated on the implementation's own observation: any
   crash / hang / failed watchdog is `prop=FAILS`, whether or not the model predicted it.
 -/
@@ -277,6 +278,9 @@ def modelOf (tok : List String) (impl : String) : Option String :=
   | _ => none
 
 def step (st : Unit) (tok : List String) (impl : String) : Unit × Verdict :=
+  -- the child answered only in the second 90 s and passed the watchdog right after: alive, but the op's timing is not the
+  -- model's business (a loaded machine); counted as skipped, never as agreement
+  if impl.startsWith "slow:" then (st, .skip "the child answered after the bound and passed the watchdog") else
   match modelOf tok impl with
   | none => (st, .bad "unknown op")
   | some m => (st, verdictOf m impl (some (C16.holdsOn (obsOf impl))))
